@@ -18,27 +18,27 @@ import (
 
 // vzDisk is the durable state of one node: the real memstores plus shadow records for oracles.
 type vzDisk struct {
-	action   *tmmemstore.ActionStore
-	commit   *tmmemstore.CommittedHeaderStore
-	fin      *tmmemstore.FinalizationStore
-	mirror   *tmmemstore.MirrorStore
-	round    *tmmemstore.RoundStore
-	sm       *tmmemstore.StateMachineStore
-	val      *tmmemstore.ValidatorStore
-	writes   int                    // completed writes, all stores
-	commits  map[uint64][]string    // every hash ever saved as committed, per height, in order
-	commitCH map[uint64]tmconsensus.CommittedHeader
-	nhr      [][4]uint64            // every network height/round ever set
-	fins     map[uint64]string      // finalization saved per height (hash|apphash|valhash)
+	action               *tmmemstore.ActionStore
+	commit               *tmmemstore.CommittedHeaderStore
+	fin                  *tmmemstore.FinalizationStore
+	mirror               *tmmemstore.MirrorStore
+	round                *tmmemstore.RoundStore
+	sm                   *tmmemstore.StateMachineStore
+	val                  *tmmemstore.ValidatorStore
+	writes               int                 // completed writes, all stores
+	commits              map[uint64][]string // every hash ever saved as committed, per height, in order
+	commitCH             map[uint64]tmconsensus.CommittedHeader
+	nhr                  [][4]uint64       // every network height/round ever set
+	fins                 map[uint64]string // finalization saved per height (hash|apphash|valhash)
 	finOverwriteAttempts int
-	lock     map[uint64]string // the reference strategy's durable lock, per height
+	lock                 map[uint64]string // the reference strategy's durable lock, per height
 }
 
 func newVzDisk(hs tmconsensus.HashScheme) *vzDisk {
 	return &vzDisk{
 		action: tmmemstore.NewActionStore(), commit: tmmemstore.NewCommittedHeaderStore(), fin: tmmemstore.NewFinalizationStore(),
 		mirror: tmmemstore.NewMirrorStore(), round: tmmemstore.NewRoundStore(), sm: tmmemstore.NewStateMachineStore(),
-		val: tmmemstore.NewValidatorStore(hs),
+		val:     tmmemstore.NewValidatorStore(hs),
 		commits: map[uint64][]string{}, commitCH: map[uint64]tmconsensus.CommittedHeader{}, fins: map[uint64]string{}, lock: map[uint64]string{},
 	}
 }
